@@ -146,7 +146,11 @@ func init() {
 		Explanation: "Values are produced by decoding a generated datum with the model (so they are inside the schema type's range by construction); the reference decoder must consume exactly the bytes written and yield the datum the model assigns to the value (null position honoured, logical types by the specification's meaning); Codec.Read of those bytes must give the value back.",
 		Assumptions: []string{"struct fields carry no omitempty here; nil pointers occur only under a union; single-/multi-branch unions (explicitly unimplemented on the write side) are not generated"},
 		Modes: func(tier string) []core.Mode {
-			return []core.Mode{{Name: "plain", Variant: "plain"}, {Name: "checkptr", Variant: "checkptr", CaseDiv: 4}}
+			m := []core.Mode{{Name: "plain", Variant: "plain"}, {Name: "checkptr", Variant: "checkptr", CaseDiv: 4}}
+			if tier == "thorough" {
+				m = append(m, core.Mode{Name: "asan", Variant: "asan", CaseDiv: 8, NoRlimit: true})
+			}
+			return m
 		},
 		NumCases: func(c *core.Ctx) int { return c.Pick(24000, 600000) },
 		Run:      runC13,
